@@ -1,7 +1,7 @@
 SPECIFICATION Spec
 CONSTANTS
   Alphabet <- Alpha7
-  MaxLen = 5
+  MaxLen = 4
   History = TRUE
 VIEW View
 INVARIANT ConcatInv
